@@ -302,6 +302,55 @@ func genTokens(rng *Rng, thorough bool, emit func(tc tokCase)) {
 			shuffle(rng, t)
 			emit(tokCase{class: pn + "mixed-profile-keys", n: t})
 		}
+		// an unknown key whose value nests arrays / maps / tags to depth 1..16: ignored whatever it holds
+		for depth := 1; depth <= 16; depth++ {
+			for kind := 0; kind < 3; kind++ {
+				v := nUint(1)
+				for i := 0; i < depth; i++ {
+					switch (kind + i) % 3 {
+					case 0:
+						v = nArr(v)
+					case 1:
+						v = nMap([2]*Node{nUint(uint64(i)), v})
+					default:
+						v = nArr(nTstr("x"), v)
+					}
+				}
+				t := base()
+				pos := rng.Intn(len(t.Pairs) + 1)
+				t.Pairs = append(t.Pairs[:pos:pos], append([][2]*Node{{nInt(-76000 - int64(depth)), v}}, t.Pairs[pos:]...)...)
+				emit(tokCase{class: pn + "unknown-key-nested", n: t})
+			}
+		}
+		// an unknown key holding a long array / a map of many pairs
+		for _, n := range []int{24, 33, 129, 1000} {
+			arr, mp := nArr(), nMap()
+			for i := 0; i < n; i++ {
+				arr.Kids = append(arr.Kids, nUint(uint64(i)))
+				mp.Pairs = append(mp.Pairs, [2]*Node{nUint(uint64(i)), nUint(1)})
+			}
+			for _, v := range []*Node{arr, mp} {
+				t := base()
+				t.Pairs = append(t.Pairs, [2]*Node{nInt(-76100), v})
+				emit(tokCase{class: pn + "unknown-key-long", n: t})
+			}
+		}
+		// certification references as text: the valid forms, their edits, digits of other scripts in the same number of bytes
+		{
+			certKey := int64(-75005)
+			if p == 2 {
+				certKey = 2398
+			}
+			nb := append(certNeighbourhood(ean13), certNeighbourhood(ean13p5)...)
+			for i, sref := range nb {
+				if !thorough && i%9 != 0 && !strings.ContainsAny(sref, "٢१𝟏０١") {
+					continue
+				}
+				t := fullBase()
+				setKey(t, certKey, nTstr(sref))
+				emit(tokCase{class: pn + "cert-ref-edit", n: t})
+			}
+		}
 		// non-integer, non-text keys
 		for _, k := range []*Node{nBstr([]byte{1}), nArr(), nMap(), nSimple(21), nNull(), {Kind: kF64, N: 0x3ff0000000000000}, nTstr("\xff"), nNint(1 << 63), nTag(1, nUint(1))} {
 			t := base()
